@@ -1608,6 +1608,12 @@ private:
     }
 
     _logStream.flush();
+    if (!_logStream.good())
+    {
+      // The write(2) behind the stream buffer failed: the record did not reach the OS, so the
+      // operation must not be acknowledged (callers roll back the in-memory state).
+      throw KVStoreException("Failed to flush log entry");
+    }
   }
 
   static void appendRaw(std::vector<std::uint8_t> &buffer, const void *data, size_t n)
